@@ -185,6 +185,8 @@ def scenario(draw, ensembles=ENSEMBLES, calc_styles=("caching",), constraints=Tr
     scn["entries"] = entries
     if alias and draw(st.integers(0, 2)) == 0:
         scn["alias_of"] = draw(st.integers(0, len(entries) - 1))
+    if alias and len(entries) > 1 and draw(st.integers(0, 2)) == 0:
+        scn["share_disp"] = True  # displacement leaves with equal ids are one object across entries
     if ens == "GrandCanonical":
         scn["n_exchange"] = draw(st.integers(0, 4))
         if draw(st.booleans()):
@@ -268,7 +270,7 @@ def build_simulation(scn, logfile=None, criteria="scripted", extra_kw=None):
         cache = {}
         crits = []
         for i, e in enumerate(scn["entries"]):
-            mv = S.build_move(e, cache if scn.get("share_cache") else {})
+            mv = S.build_move(e, {}, shared=(cache if scn.get("share_disp") else None))
             cr = ScriptedCriteria() if criteria == "scripted" else real_criteria_for(e, ens)
             kwm = {}
             if scn.get("table"):
